@@ -20,6 +20,9 @@ import (
 //	pie        the same, -buildmode=pie
 //	inst       yields inserted, sync types replaced (scratch copy only)
 //	inst-race  the same with -race (selects go-json's race-build cache code)
+//	plain-bN   plain with other buffer sizes (tuning knobs)
+//	plain-pop  plain with a second population of types in the worker (C14)
+//	plain-cp   plain built with -gcflags=all=-d=checkptr
 type variant struct {
 	Name string
 	Bin  string
@@ -168,6 +171,12 @@ func (b *builder) build(name string) (*variant, error) {
 	}
 	if strings.Contains(name, "pie") {
 		args = append(args, "-buildmode=pie")
+	}
+	if strings.HasSuffix(name, "-cp") {
+		// checkptr: the compiler's instrumentation of unsafe.Pointer conversions
+		// (what -race switches on as well): pointer arithmetic that leaves the
+		// allocation it started in is a fatal error
+		args = append(args, "-gcflags=all=-d=checkptr")
 	}
 	args = append(args, "./cmd/worker")
 	cmd := exec.Command("go", args...)
